@@ -593,7 +593,7 @@ package vnet
 //@   modifies clock, tLook, chDst, chDstIP, chStamp, lastPushed, upN, upRouter, upChunk, rtTo
 //@   ghost after translateInbound#1: rtTo = ref(result$0)
 //@   ensures [atmost] upN == old(upN) || upN == old(upN) + 1
-//@   ensures [translated] upN == old(upN) + 1 ==> upChunk[old(upN)] == rtTo && rtTo != 0
+//@   ensures [translated] upN == old(upN) + 1 ==> upChunk[old(upN)] == rtTo
 //@   ensures [self] upN == old(upN) + 1 ==> upRouter[old(upN)] == ref(r) && chData[upChunk[old(upN)]] == chData[ref(c)] && chSrc[upChunk[old(upN)]] == chSrc[ref(c)] &&
 //@            chNet[upChunk[old(upN)]] == chNet[ref(c)]
 
